@@ -155,6 +155,7 @@ pub fn run(ctx: &Ctx) {
         ctx.require_class(&format!("l0/{}/{}", if f.w == 8 { "byte-exhaustive" } else { "word-lattice" }, f.name), 1000);
     }
     crate::l1::run_forms(ctx, crate::l1::FormSet::MulDiv);
+    crate::l3fam::run(ctx, crate::l3fam::Fam::Set(crate::l1::FormSet::MulDiv), ctx.tier.pick(320usize, 6000usize));
     if ctx.tier == Tier::Thorough {
         crate::fuzzrun::exec_campaign(ctx, &["mul", "imul", "div", "idiv", "aaa", "aas", "daa", "das", "aam", "aad", "cbw", "cwd"], &[]);
     }
